@@ -131,7 +131,7 @@ class Sys(e1.TimedSys):
                 self.step_reboot = (cl, {k[1] for k, v in m.last.items() if k[0] == cl and v == "subscribed"})
                 self._drop_all(cl)
             else:
-                sess = self.wire.get(cl, 0) + 1
+                sess = self.wire.get(cl, self.cfg.get("session_base", 0)) + 1
             self.wire[cl] = sess
             m.sent_before.add(cl)
             entries = []
@@ -299,6 +299,9 @@ def configs(ctx):
     out = []
     out.append(("C1-a-deep", dict(sid=sid, advs=full, menu=c1a, controls=("announcer",),
                                   deviations=ctx.pick(1, 2), fine=ctx.pick(1, 2)), CLOSURE))
+    # the same with a subscriber whose session counter is far advanced when it reboots (0xFFF0 -> 1)
+    out.append(("C1-a-high-session", dict(sid=sid, advs=base, menu=c1a, controls=(), deviations=0, fine=1,
+                                          session_base=0xFFF0 - ctx.seed % 0x7000), CLOSURE))
     menu = c1a + [("C1", n, "n") for n in ("sub-b2", "stop-b", "sub-c2", "stop-c", "stop-a+sub-a2", "sub-a2+sub-c2")] + \
         [("C1", "sub-a2+sub-c2", "r")] + [("C2", n, e) for n in ("sub-a2", "stop-a") for e in ("n", "r")]
     out.append(("full-menu", dict(sid=sid, advs=base, menu=menu, controls=("reject", "announcer", "service", "connlost"),
